@@ -16,6 +16,9 @@ and every pod found already evicted and credited as pending release (`pending`).
 `logRev = newer ++ ev :: older` singles out one event `ev` and everything that happened before it.
 All statements hold for every task list, every `IsPodEvicted` answer and every script of
 `Evict` results (all failure patterns).
+
+Part B: victim selection and order.  Part D: decoding of labels / annotations.  Part C: several rounds against
+the real executor (Evictor TTL cache + DefaultEvictionExecutor).  Part E: memoryEvict() / cpuEvict() end to end.
 -/
 namespace KoordVerif.C11
 
